@@ -11,6 +11,7 @@
   cipher) and marks the connection verified (`upgrades`).
 -/
 import Proofs.PairVerifyOrigin
+import Proofs.PairVerifyDY
 import Proofs.HandlerConsts
 namespace Hap.PV
 open Hap Hap.Tlv
@@ -524,6 +525,19 @@ theorem C02_session_origin (C : Crypto) (S : StrongSig C) (Honest : Bytes → Pr
   simp only [Obeys] at this
   exact this.1 cl sk _ hcl hpr hh
 
+/-- **Why an attacker obeys the rule** (term level, classic Dolev–Yao closure; `Proofs/PairVerifyDY`):
+    for messages of a free term algebra and an attacker that can pair / project, sign with keys it
+    derives, read signed messages, seal / open with keys it derives, derive keys and run
+    Diffie–Hellman with its own secrets — if the honest long-term secret `n` occurs in the observed
+    traffic `K` only as a signing key, under `pk` or inside a Diffie–Hellman value (which is how
+    pair-setup and pair-verify use it), then the secret is not derivable and every signature under
+    it that occurs ANYWHERE in ANY message the attacker can build occurs in an observed message,
+    i.e. was issued by the key holder.  This is `Obeys` of `C02_session_origin`, for terms. -/
+theorem C02_dy_signature_rule (K : DY.Tm → Prop) (n : Nat) (hK : ∀ k, K k → DY.Hid n k) :
+    ¬ DY.Der K (.sec n) ∧
+    ∀ t, DY.Der K t → ∀ m, DY.Occ (.sig (.sec n) m) t → ∃ k, K k ∧ DY.Occ (.sig (.sec n) m) k :=
+  ⟨DY.secret_underivable K n hK, fun _ h m hs => DY.sig_from_observed K n hK h m hs⟩
+
 /-! ### Non-vacuity: the hypothesis records are inhabited, and a concrete exchange runs -/
 
 example : IdealSig Sym.crypto ∧ IdealAEAD Sym.crypto ∧ IdealDH Sym.crypto ∧ FreshKeys Sym.crypto 256 32 :=
@@ -638,5 +652,23 @@ example : Obeys crypto (fun sk => sk = skA) {} (whist ++ [.sys (.verify 0 (m3 sk
     exact List.mem_singleton.2 rfl
 
 end Demo
+
+/-! the observed traffic of one honest pair-verify exchange satisfies the hypothesis of
+    `C02_dy_signature_rule`, and the only signature under the controller's secret the attacker can
+    ever present is the one over this exchange's material -/
+namespace DYDemo
+open DY DY.Demo
+
+example (t : Tm) (h : Der (· ∈ obs) t) (m : Tm) (hs : Occ (.sig (.sec 1) m) t) : m = material := by
+  obtain ⟨k, hk, hsub⟩ := (C02_dy_signature_rule (· ∈ obs) 1 obs_hid).2 t h m hs
+  simp only [obs, List.mem_cons, List.not_mem_nil, or_false] at hk
+  rcases hk with rfl | rfl | rfl | rfl <;> simp [Occ, material, idA] at hsub
+  exact hsub
+
+/-- the attacker can relay the observed final message (and nothing forces it to know its content) -/
+example : Der (· ∈ obs) (.aead (.kdf (.dh (.sec 10) (.sec 20))) (.cat idA (.sig (.sec 1) material))) :=
+  .known (by simp [obs])
+
+end DYDemo
 
 end Hap.PV
